@@ -225,6 +225,23 @@ CLAIMED = {
                 "C++-visible effects are observed through one int callback and stdout only. No axioms.",
         "technique": "translation validation against Coq-extracted optimizer and evaluator models + Coq theorems about the optimizer passes",
     },
+    "C11": {
+        "category": "proof",
+        "text": "Machine-checked (Coq 8.16, no axioms) reference-counting machine of objects with identity, owning/non-owning handles and referrers (scope variables, temporaries, call_params, "
+                "conversion saves, C++-held shared_ptrs, slots of containers/attributes/captures/bound arguments): for ALL operation histories each object is destroyed at most once and exactly once "
+                "by engine destruction unless on a cycle, its counter equals the number of owning referrers, it is alive while one exists and destroyed in the very step that removes the last; no use "
+                "after destruction provided every non-owning handle is covered by an owner (semantic condition `covered` and syntactic scope discipline `disciplined_run`), with the unconditional "
+                "statement refuted by the ranged-for map-pair route (known finding). The ownership routes (Object_Data::get, Handle_Return, constructor/clone/conversion/var-decl) are regenerated "
+                "from the source on every run and proved equal to the specification (creation routes owning, only pointer/reference shapes non-owning). Tie: every run compares ~1000 (quick) / "
+                "~6400 (thorough) generated programs over an instrumented class, under ASan+UBSan with both parsers, against the extracted machine at every checkpoint, C++ function entry, engine "
+                "destruction and C++ release.",
+        "design_ref": "DESIGN.md §6 C11, §11",
+        "note": "Observation points are checkpoints / C++ function entries / engine end; destructor order inside one C++ full-expression, allocator reuse and other threads' Thread_Storage are not "
+                "modelled. The script->operation rendering (tools/p_C11.py Exec: where the evaluator keeps handles, incl. call_params per scope, clone guard saves, Unused_Return, rv flag in the "
+                "shared Data) is trusted only through the per-run comparison. Known findings: ranged-for element reference; references obtained through a C++ API from a temporary owner at top "
+                "level; a C++ function returning its `const shared_ptr<T>&` parameter (both outside the generated grammar, recorded from the builder's probes).",
+        "technique": "Coq proof over a hand-written model + translator-regenerated tables (t_Ownership) + extracted-model/implementation correspondence with sanitizer oracle",
+    },
 }
 PENDING_REASON = "check not built yet in this round (work in progress; see DESIGN.md §6 for the planned Coq model and tie)"
 ALL = ["C%02d" % i for i in range(1, 21)]
